@@ -168,5 +168,34 @@ Definition canonical (m : msg) : msg :=
   {| m_type := m_type m; m_code := m_code m; m_mid := m_mid m; m_token := m_token m;
      m_opt := option_list (m_opt m); m_payload := m_payload m |}.
 
-(* ------------------------------------------------------------------ helpers for the correspondence run only *)
-Definition digest (b : bytes) : Z * Z := (blen b, fold_left (fun a x => (a * 257 + x + 1) mod 1000000007) b 0).
+(* ------------------------------------------------------------------ helpers for the correspondence run only
+   (canonical, size-bounded views of results; long byte strings are shown as (length, hash)) *)
+Definition digest (b : bytes) : Z * Z := (blen b, fold_left (fun a x => Z.land (a * 257 + x + 1) 1073741823) b 0).
+Inductive bview := BFull (b : bytes) | BDigest (len hash : Z).
+Definition bv (b : bytes) : bview := if blen b <=? 64 then BFull b else let d := digest b in BDigest (fst d) (snd d).
+Definition optview (o : option_) : Z * Z * list Z * bview :=
+  match snd o with
+  | VOpaque b => (fst o, 0, [], bv b)
+  | VString s => (fst o, 1, [], bv s)
+  | VUint n => (fst o, 2, [n], BFull [])
+  | VBlock num more szx => (fst o, 3, [num; if more then 1 else 0; szx], BFull [])
+  | VContentFormat n => (fst o, 4, [n], BFull [])
+  end.
+Definition msgview (m : msg) :=
+  (m_type m, m_code m, m_mid m, bv (m_token m), map optview (option_list (m_opt m)), bv (m_payload m)).
+Definition mmap {A B} (f : A -> B) (x : M A) : M B := match x with Ok a => Ok (f a) | Raise e => Raise e end.
+(* pattern repeated up to length n (large inputs without large literals) *)
+Definition fill (pat : bytes) (n : Z) : bytes :=
+  firstn (Z.to_nat n) (concat (repeat pat (Z.to_nat (n / (Z.max 1 (blen pat)) + 1)))).
+(* decode stream: parse, re-encode the parsed message, parse that again *)
+Definition decode_trace (data : bytes) :=
+  let d := Message_decode data in
+  let e := bind d Message_encode in
+  (mmap msgview d, mmap bv e, mmap msgview (bind e Message_decode)).
+(* encode stream: serialise, parse the result *)
+Definition encode_trace (m : msg) :=
+  let e := Message_encode m in (mmap bv e, mmap msgview (bind e Message_decode)).
+(* option value stream: create_option(decode=raw) then option.encode() *)
+Definition value_trace (number : Z) (raw : bytes) :=
+  let d := create_option_decode number raw in
+  (mmap (fun v => optview (number, v)) d, mmap bv (bind d option_encode)).
